@@ -279,6 +279,7 @@ func checkCondProgram(k *h.Case, prog *spec.Program, leaves []*spec.Leaf, maxFul
 		if !res.OK() {
 			k.Count("rejected", 1)
 			k.Count("rejected: "+rejectFamily(res.ErrString()), 1)
+			rejectedValid(k, prog, res, false)
 			return false
 		}
 		k.Count("accepted", 1)
